@@ -2464,6 +2464,13 @@ def _run(ctx, thorough, ok, drv, scr):
     base_o, base_f = load_baseline()
     moved = sorted(n for n in base_o if n in res_o and not set(res_o[n]) <= {"function"})
     moved_f = sorted(n for n in base_f if n in res_f and not set(res_f[n]) <= {"function", "arg"})
+    moved_k = {}
+    for fld, ok_kinds in (("namespace_scoped_options", {"namespace", "other"}), ("class_scoped_options", {"class", "other"})):
+        for n_ in extract_optreads.baseline_kind(fld):
+            if n_ in res_o and not set(res_o[n_]) <= ok_kinds:
+                moved_k[n_] = dict(res_o[n_])
+    if moved_k:
+        ctx.tie_broken("scope-measurement-member-kinds", {"formerly_namespace_or_class_scoped_now_read_elsewhere": moved_k})
     if moved or moved_f:
         ctx.tie_broken("scope-measurement", {"formerly_function_scoped_now_read_elsewhere":
                                              {n: dict(res_o[n]) for n in moved} | {n: dict(res_f[n]) for n in moved_f}})
